@@ -10,7 +10,7 @@ from fractions import Fraction
 import z3
 import numpy as np
 
-from .common import Check, run_check, prove_paths, close, run_parallel
+from .common import Check, run_check, prove_paths, close, run_parallel, laplace_load, ExpectedRefusal
 import symx
 from symx import SR, SC, SI, core, npf, tokens
 from symx.core import eq_term
@@ -78,7 +78,7 @@ def _build(M, case, P):
         m.register_load(ld, n - 1)
         loads.append(ld)
     elif lk == 'lap':
-        ld = M.Laplace_Load(a=P['a'], b=P['b'])
+        ld = laplace_load(M, P['a'], P['b'])
         m.register_load(ld, 1)
         loads.append(ld)
     elif lk == 'skin':
@@ -196,7 +196,7 @@ def basic_input(ck, sh, mm, case):
 
     def replay(c, gname_, out):
         return replay_basic(mm, case, _conc_params(c))
-    prove_paths(ck, 'basic-%s' % case, fn, goals, replay, max_paths=64, sqrt_mode='uf-free' if lk == 'skin' else 'fresh',
+    prove_paths(ck, 'basic-%s' % case, fn, goals, replay, max_paths=64, sqrt_mode='uf-free' if lk == 'skin' else 'fresh', expect_exc=(ExpectedRefusal,),
                 timeout_ms=10000 if ck.tier == 'quick' else 60000)
     ck.bounds.setdefault('cases', []).append('%s: %s' % (case, CASES[case]))
 
